@@ -3,12 +3,12 @@ import SLModel.Core.Doc
 # Core/DocValidate — what `add_document` accepts and what `commit` needs (C15)
 
 Import-free apart from `Core/Doc`, executable, structurally recursive.  This is the code **after**
-the repairs 37df93e (unknown top-level names rejected when queued), 919e2f9 (an array directly
+the repairs 8c4f4e4 (stored projection checked against the docstore cap when queued), 37df93e (unknown top-level names rejected when queued), 919e2f9 (an array directly
 inside a nested array rejected when queued) and 6d0f8bf (values of nested leaf properties
 type-checked like top-level fields); the add-time validation as it was before them is kept in
 `Core/DocValidateLegacy`.
 
-* `validateAdd` mirrors `Schema::validate_document` (`index/manifest.rs`): the id test, then for
+* `validateDoc` mirrors `Schema::validate_document` (`index/manifest.rs`): the id test, then for
   every top-level entry *in this order*: a nested field of that name → `NestedField::validate`;
   otherwise a flat field of that name → `validate_field_value`; otherwise the id field → nothing;
   otherwise `bail!("unknown field")`.  `NestedField::validate`: null only if nullable; an array
@@ -21,6 +21,8 @@ type-checked like top-level fields); the add-time validation as it was before th
   `collect_nested_object` (`index/segment.rs`): unknown top-level name, null where not nullable,
   scalar nested value, non-object element of a nested array, unknown nested property, missing
   required property.  `handle_field` never fails (values of the wrong type are dropped).
+* `validateAdd` = `IndexWriter::add_document` accepts: `validate_document`, then (since 8c4f4e4)
+  `ensure_storable` = `collect_document` succeeds and the stored projection is within the cap.
 * `collectOk` = what `write_segment_stream` needs for one document: `validate_document` again,
   `collect_document`, and the docstore cap on the serialised stored projection
   (`DocStoreWriter::add_document`, `MAX_DOCSTORE_BYTES`).  The serialised size is a parameter
@@ -84,8 +86,8 @@ def fieldsValid [DecidableEq σ] (s : Schema σ) : JO σ → Bool
        | some l => flatOk l v
        | none => decide (k = s.idField)) && fieldsValid s t
 
-/-- `IndexWriter::add_document` returns `Ok` (the log append cannot fail on content) -/
-def validateAdd [DecidableEq σ] (blank : σ → Bool) (s : Schema σ) : J σ → Bool
+/-- `Schema::validate_document` returns `Ok` -/
+def validateDoc [DecidableEq σ] (blank : σ → Bool) (s : Schema σ) : J σ → Bool
   | .obj kv => idOk blank s kv && fieldsValid s kv
   | _ => false
 
@@ -133,11 +135,22 @@ def collectDoc [DecidableEq σ] (s : Schema σ) : J σ → Bool
   | .obj kv => collectFields s kv
   | _ => false
 
+/-- `ensure_storable` (added by 8c4f4e4): `collect_document` succeeds and the serialised stored
+projection is within `MAX_DOCSTORE_BYTES` -/
+def storable [DecidableEq σ] (size : J σ → Nat) (cap : Nat) (s : Schema σ) (d : J σ) : Bool :=
+  collectDoc s d && decide (size (project s d) ≤ cap)
+
+/-- `IndexWriter::add_document` returns `Ok`: `validate_document`, then `ensure_storable` (the log
+append cannot fail on content) -/
+def validateAdd [DecidableEq σ] (blank : σ → Bool) (size : J σ → Nat) (cap : Nat) (s : Schema σ)
+    (d : J σ) : Bool :=
+  validateDoc blank s d && storable size cap s d
+
 /-- one document passes `write_segment_stream`: validated again, collected, stored projection
-within the docstore cap -/
+within the docstore cap (`DocStoreWriter::add_document`) -/
 def collectOk [DecidableEq σ] (blank : σ → Bool) (size : J σ → Nat) (cap : Nat) (s : Schema σ)
     (d : J σ) : Bool :=
-  validateAdd blank s d && collectDoc s d && decide (size (project s d) ≤ cap)
+  validateDoc blank s d && collectDoc s d && decide (size (project s d) ≤ cap)
 
 /-! ## the documented rules: strict conformance -/
 
